@@ -210,6 +210,12 @@ HAND = [
     "Nc1ccccc1S>>c1nc2ccccc2s1.O.O",
     "Nc1ccc(C)cc1N>>Cc1ccc2[nH]cnc2c1.O.O",
     "NC(=O)c1ccccc1N>>O=c1[nH]cnc2ccccc12.O.O",
+    # peracid oxidations: reagent and product share a single oxygen
+    "CC(=O)OO.C=C>>C1CO1",
+    "CC(=O)OO.CSC>>CS(C)=O",
+    "CC(=O)OO.c1ccncc1>>[O-][n+]1ccccc1",
+    "O=C(OO)c1cccc(Cl)c1.C1=CCCCC1>>C1CCC2OC2C1",
+    "O=C(OO)c1cccc(Cl)c1.CN(C)C>>C[N+](C)(C)[O-]",
     # isotope labels that are lost or moved
     "[2H]C([2H])([2H])C([2H])([2H])[2H]>>[2H]C([2H])=C([2H])[2H]",
     "[2H]C([2H])([2H])O[2H]>>[2H]C([2H])=O",
